@@ -2259,6 +2259,12 @@ macro_rules! value_dy_math_impl {
                     if b.shape != [] || b.type_id() != f64::TYPE_ID {
                         return None;
                     }
+                    // Only lists of real numbers or characters are sure to keep their order.
+                    // Complex numbers, boxes and rows of several numbers are ordered by
+                    // their first difference, which rounding can remove.
+                    if a.rank() > 1 || !matches!(a, Value::Num(_) | Value::Byte(_) | Value::Char(_)) {
+                        return None;
+                    }
                     let mut flags = a.meta.take_sorted_flags();
                     $(if _left != $left {
                         flags.reverse_sorted();
@@ -2268,6 +2274,14 @@ macro_rules! value_dy_math_impl {
                 handle_pre: |a: Option<ArrayFlags>, b, val| {
                     if let Some(flags) = a.or(b) {
                         val.meta.or_sorted_flags(flags);
+                    }
+                    // ∞ - ∞ is NaN, which is ordered after every other number
+                    if val.meta.is_sorted_up() || val.meta.is_sorted_down() {
+                        if let Value::Num(arr) = val {
+                            if arr.data.iter().any(|&n| n.is_nan()) {
+                                arr.meta.take_sorted_flags();
+                            }
+                        }
                     }
                 },
             }
@@ -2332,6 +2346,12 @@ macro_rules! value_dy_math_impl {
                         Value::Byte(arr) if arr.shape == [] => false,
                         _ => return None,
                     };
+                    // Only lists of real numbers are sure to keep or reverse their order.
+                    // Characters change case, and complex numbers, boxes and rows of several
+                    // numbers are ordered by their first difference, which rounding can remove.
+                    if a.rank() > 1 || !matches!(a, Value::Num(_) | Value::Byte(_)) {
+                        return None;
+                    }
                     let mut flags = a.meta.take_sorted_flags();
                     if negative {
                         flags.reverse_sorted();
